@@ -123,6 +123,31 @@ func c03Value(cs *core.Case, p rtcp.Packet, where string) {
 		}
 		cs.Fail("layout/"+k.String()+"/"+base, det(core.W{"offset": i, "field": f, "got": b[i], "want": e.B[i]}), kfs...)
 	}
+	// MarshalTo (REMB has one) writes the same octets into a buffer the caller owns, whatever that
+	// buffer held before, and nothing beyond them
+	if rp, ok := p.(*rtcp.ReceiverEstimatedMaximumBitrate); ok {
+		r := cs.R
+		slack := r.Pick(0, 1, 4, 64)
+		buf := r.Bytes(len(e.B) + slack)
+		for i := range buf {
+			if buf[i] == 0 {
+				buf[i] = 0xA5 // every octet dirty
+			}
+		}
+		before := cloneBytes(buf)
+		var n int
+		var terr error
+		if panicked, v, st := core.Guard(func() { n, terr = rp.MarshalTo(buf) }); panicked {
+			cs.Fail("panic/MarshalTo", core.W{"value": vdump(p), "panic": v, "stack": st})
+			return
+		}
+		cs.Eval(1)
+		cs.Count(where + "/MarshalTo")
+		ok := terr == nil && n == len(e.B) && firstDiff(buf[:n], e.B, e.Mask) < 0 && bytes.Equal(buf[n:], before[n:])
+		cs.Check(ok, "layout/"+k.String()+"/MarshalTo", func() core.W {
+			return det(core.W{"n": n, "error": errStr(terr), "buffer_before_hex": mon.Hex(before, 200), "buffer_after_hex": mon.Hex(buf, 200)})
+		})
+	}
 }
 
 // fieldIsSLI reports whether the header field named f belongs to an SLI (directly or as a
